@@ -41,7 +41,7 @@ func (vm *varyMatcher) VaryHeadersMatch(entries ResponseRefs, reqHdr http.Header
 		bVary := strings.TrimSpace(b.Vary)
 
 		// Responses with Vary: "*" are least preferred
-		switch aIsStar, bIsStar := aVary == "*", bVary == "*"; {
+		switch aIsStar, bIsStar := hasVaryWildcard(aVary), hasVaryWildcard(bVary); {
 		case aIsStar && !bIsStar:
 			return 1 // b preferred
 		case bIsStar && !aIsStar:
@@ -70,8 +70,8 @@ func (vm *varyMatcher) VaryHeadersMatch(entries ResponseRefs, reqHdr http.Header
 }
 
 func (vm *varyMatcher) varyHeadersMatchOne(entry *ResponseRef, reqHeader http.Header) bool {
-	if entry.Vary == "*" {
-		return false // Vary: "*" never matches
+	if hasVaryWildcard(entry.Vary) {
+		return false // a Vary value with a "*" member never matches (RFC 9111 §4.1)
 	}
 	for field, value := range entry.VaryResolved {
 		reqValues := reqHeader[field]
@@ -86,4 +86,14 @@ func (vm *varyMatcher) varyHeadersMatchOne(entry *ResponseRef, reqHeader http.He
 		}
 	}
 	return true
+}
+
+// hasVaryWildcard reports whether the Vary field value has a "*" member.
+func hasVaryWildcard(vary string) bool {
+	for member := range TrimmedCSVSeq(vary) {
+		if member == "*" {
+			return true
+		}
+	}
+	return false
 }
